@@ -169,7 +169,8 @@ Section Inv.
     exists dl, ts = dl ++ rest st /\ rest st <> [] /\ lseen st = flat_map lerrs dl /\
                Last2 (map lt dl) (pre st) (now st).
   Definition StuckI (st : pst) : Prop :=
-    exists e, rest st = [mkLtok e [] []] /\ tk e = TkEOF /\ now st = Some e /\ lseen st = flat_map lerrs ts.
+    exists e, rest st = [mkLtok e [] []] /\ tk e = TkEOF /\ now st = Some e /\ lseen st = flat_map lerrs ts /\
+              In e (map lt ts).
   Definition Inv (st : pst) : Prop := RunI st \/ StuckI st.
 
   Lemma Inv_init : ts <> [] -> Inv (init_pst ts).
@@ -182,11 +183,12 @@ Section Inv.
 
   Lemma Inv_next st : Inv st -> Inv (next st).
   Proof.
-    intros [(dl & Hts & Hne & Hls & Hl2)|(e & Hr & Hk & Hn & Hls)].
+    intros [(dl & Hts & Hne & Hls & Hl2)|(e & Hr & Hk & Hn & Hls & Hin)].
     - unfold next. destruct (rest st) as [|t [|t2 r]] eqn:Er; [congruence| |].
       + right. exists (lt t). cbn [rest now lseen]. repeat split.
         * destruct Hwf as [_ Hl]. rewrite Hts, last_last in Hl. exact Hl.
         * rewrite Hls, Hts, flat_map_app. cbn [flat_map]. rewrite app_nil_r. reflexivity.
+        * rewrite Hts, map_app. apply in_or_app. right. left. reflexivity.
       + left. exists (dl ++ [t]). cbn [rest now pre lseen]. split; [rewrite <- app_assoc; exact Hts|].
         split; [discriminate|]. split.
         * rewrite Hls, flat_map_app. cbn [flat_map]. rewrite app_nil_r. reflexivity.
@@ -201,7 +203,7 @@ Section Inv.
   Lemma Inv_now_id st t : Inv st -> now st = Some t -> tk t = TkIdentifier ->
     In (t, now_loc st) (tok_locs zero_tok ts).
   Proof.
-    intros [(dl & Hts & Hne & Hls & Hl2)|(e & Hr & Hk & Hn & Hls)] Hnow Hid.
+    intros [(dl & Hts & Hne & Hls & Hl2)|(e & Hr & Hk & Hn & Hls & Hin)] Hnow Hid.
     - unfold now_loc. rewrite Hnow. rewrite Hnow in Hl2.
       assert (Hm : map lt ts = map lt dl ++ map lt (rest st)) by (rewrite Hts at 1; apply map_app).
       inversion Hl2 as [E1 E2 E3|t0 E1 E2 E3|l p t0 E1 E2 E3].
@@ -264,7 +266,7 @@ Section Inv.
   (* ---------------------------------------------------------------- the end of the parse *)
   Lemma Inv_eof_all st : wf_tokens ts -> Inv st -> now_kind st = TkEOF -> lseen st = flat_map lerrs ts.
   Proof.
-    intros (_ & _ & Hall) [(dl & Hts & Hne & Hls & Hl2)|(e & Hr & Hk & Hn & Hls)] Hk0; [exfalso|exact Hls].
+    intros (_ & _ & Hall) [(dl & Hts & Hne & Hls & Hl2)|(e & Hr & Hk & Hn & Hls & Hin)] Hk0; [exfalso|exact Hls].
     unfold now_kind, now_tok in Hk0.
     assert (Hin : forall x, In x dl -> tk (lt x) <> TkEOF).
     { intros x Hx. apply Hall. rewrite Hts. rewrite removelast_app by exact Hne. apply in_or_app. left. exact Hx. }
